@@ -294,6 +294,72 @@ pub fn run(tier: Tier) -> Report {
         }
     }
     crate::traces::EMPTY_WB_STRIDE.with(|s| s.set(1));
+    // ---- readline's completion-ignore-case on: matching of the typed prefix may ignore case,
+    // the candidates themselves are still the grammar's text, character for character
+    let mut ic_traces = 0u64;
+    {
+        let lits_top = ["--Verbose", "--verbose-x", "ABC", "abd", "Mi$X", "mIx"];
+        let lits_in = ["Alpha", "alpine", "BETA", "beta"];
+        let gs = [
+            (false, call(E::Seq(vec![E::Alt(lits_top.iter().map(|l| E::lit(l)).collect()), E::lit("t")]))),
+            (true, call(E::Seq(vec![E::Word(vec![E::lit("x="), E::Alt(lits_in.iter().map(|l| E::lit(l)).collect())]), E::lit("t")]))),
+        ];
+        for (in_word, g) in gs {
+            let text = print_grammar(&g);
+            let Outcome::Ok(c) = pipe::compile(&text, pipe::Shell::Bash) else { continue };
+            let Ok(script) = pipe::emit(&c, pipe::Shell::Bash) else { continue };
+            let texts: Vec<String> = if in_word { lits_in.iter().map(|l| format!("x={l}")).collect() } else { lits_top.iter().map(|l| l.to_string()).collect() };
+            let mut queries = vec![];
+            let mut typed: Vec<String> = vec![String::new()];
+            for t_ in &texts {
+                let cs: Vec<char> = t_.chars().collect();
+                for n in 1..=cs.len() {
+                    let p: String = cs[..n].iter().collect();
+                    typed.push(p.clone());
+                    typed.push(p.to_uppercase());
+                    typed.push(p.to_lowercase());
+                }
+            }
+            typed.sort();
+            typed.dedup();
+            if in_word {
+                // the part of the word before the values is matched as written
+                typed.retain(|p| p.is_empty() || p.starts_with("x=") || "x=".starts_with(p.as_str()));
+            }
+            for p in &typed {
+                queries.push(crate::bashrun::Query { words: vec![p.clone()], default_wordbreaks: false });
+            }
+            crate::bashrun::IGNORE_CASE.with(|c| c.set(true));
+            let batch = crate::bashrun::run_batch(&script, "cmd", &[], &queries, &scratch);
+            crate::bashrun::IGNORE_CASE.with(|c| c.set(false));
+            if let Some(f) = batch.failed {
+                eprintln!("machinery: ignore-case batch failed: {f}");
+                std::process::exit(2);
+            }
+            for (q, a) in queries.iter().zip(batch.answers.iter()) {
+                ic_traces += 1;
+                let p = &q.words[0];
+                let replies: BTreeSet<String> = a.replies.iter().map(|r| r.strip_suffix(' ').unwrap_or(r).to_string()).collect();
+                let detail = || J::obj(vec![("grammar", J::s(&text)), ("typed", J::s(p)), ("compreply", J::arr_s(a.replies.iter().cloned())), ("mode", J::s("completion-ignore-case on"))]);
+                // inside a word the first thing offered is the first item `x=`
+                if in_word && p.len() < 2 {
+                    if replies != BTreeSet::from(["x=".to_string()]) {
+                        rep.violation("candidate-not-verbatim-ignore-case", format!("with completion-ignore-case on, `cmd {p}<TAB>` offers {replies:?} instead of \"x=\" (grammar `{}`)", text.trim_end()), detail());
+                    }
+                    continue;
+                }
+                if let Some(bad) = replies.iter().find(|r| !texts.contains(r)) {
+                    rep.violation("candidate-not-verbatim-ignore-case", format!("with completion-ignore-case on, `cmd {p}<TAB>` offers {bad:?}, which is not the text of any literal of `{}`", text.trim_end()), detail());
+                    continue;
+                }
+                if let Some(miss) = texts.iter().find(|t_| t_.starts_with(p.as_str()) && t_.as_str() != p.as_str() && !replies.contains(*t_)) {
+                    rep.violation("candidate-missing-ignore-case", format!("with completion-ignore-case on, `cmd {p}<TAB>` does not offer {miss:?} (grammar `{}`)", text.trim_end()), detail());
+                }
+            }
+        }
+    }
+    bash_traces += ic_traces;
+    rep.cov("bash_traces_with_ignore_case_on", J::i(ic_traces as i64));
     rep.cov("evaluations", J::i((t.evals + bash_traces) as i64));
     rep.cov("distinct_nontrivial", J::i((nstrings + ndescr) as i64));
     rep.cov("literal_strings", J::i(nstrings as i64));
@@ -305,7 +371,7 @@ pub fn run(tier: Tier) -> Report {
     rep.cov(
         "rule",
         J::s(format!(
-            "exhaustive strings: all strings of length <= 2 over the {} characters the terminal lexer admits (incl. all 13 escapes) and all strings of length <= {} over the hot set {:?}; each as top-level literal, as literal inside a word after `x=`, as literal inside a word after a command (the only place a literal may start with #); descriptions: all strings of length <= {} over {:?} plus the short literal strings, at top level and inside a word. Per string x placement x 4 shells the emitted script is read back by the shell's reader/decoder: the decoder fails on an unterminated constant or an unescaped $ / backquote, and the decoded literal set and description must equal what was written. Level B (bash): strings packed {per} per grammar as `cmd (l1|...) t` and `cmd x=(l1|...) t`: `bash -n`, then model exploration of depth 1 with all prefixes of all literals as cursor words and, as earlier words, every literal and every near miss (one glob-significant character replaced, dropped or extended): exact candidates, a word moves on to `t` iff it is identical to a literal, canary file and variable untouched. distinct = distinct strings.",
+            "exhaustive strings: all strings of length <= 2 over the {} characters the terminal lexer admits (incl. all 13 escapes) and all strings of length <= {} over the hot set {:?}; each as top-level literal, as literal inside a word after `x=`, as literal inside a word after a command (the only place a literal may start with #); descriptions: all strings of length <= {} over {:?} plus the short literal strings, at top level and inside a word. Per string x placement x 4 shells the emitted script is read back by the shell's reader/decoder: the decoder fails on an unterminated constant or an unescaped $ / backquote, and the decoded literal set and description must equal what was written. Level B (bash): strings packed {per} per grammar as `cmd (l1|...) t` and `cmd x=(l1|...) t`: `bash -n`, then model exploration of depth 1 with all prefixes of all literals as cursor words and, as earlier words, every literal and every near miss (one glob-significant character replaced, dropped or extended): exact candidates, a word moves on to `t` iff it is identical to a literal, canary file and variable untouched; with `bind -v` answering completion-ignore-case on: for two mixed-case grammars every prefix of every literal as typed, upper-cased and lower-cased: every candidate is verbatim a literal and every literal extending the typed text as typed is offered. distinct = distinct strings.",
             full_alphabet().len(),
             tier.pick(3, 4),
             hot_alphabet(),
